@@ -5,5 +5,6 @@ cd /verif
 mkdir -p build evidence
 export CARGO_NET_OFFLINE=true
 CARGO_TARGET_DIR=/verif/build/replay-target cargo build --release --offline --manifest-path replay/Cargo.toml >/dev/null 2>&1 || { echo "replay build failed"; exit 1; }
+CARGO_TARGET_DIR=/verif/build/replay-target cargo build --profile relwrap --offline --manifest-path replay/Cargo.toml >/dev/null 2>&1 || { echo "replay build (wrapping profile) failed"; exit 1; }
 python3 vgen/vgen.py --repo /repo --out build/rtcp.rs --meta build/rtcp.meta.json || true
 echo "setup ok"
